@@ -82,6 +82,9 @@ func UserCodeCase(c *Case) M {
 		conf := &op.Config{CryptoKey: opdrv.CryptoKey, DeviceAuthorization: op.DeviceAuthorizationConfig{
 			Lifetime: time.Duration(I(cs, "lifetime")) * time.Second, PollInterval: time.Duration(I(cs, "poll")) * time.Second, UserFormPath: "/device/form",
 			UserCode: op.UserCodeConfig{CharSet: string(alphabet), CharAmount: amount, DashInterval: interval}}}
+		if S(cs, "form") == "pathNoSlash" {
+			conf.DeviceAuthorization.UserFormPath = "device/form" // the verification URI is still <issuer>/device/form
+		}
 		if S(cs, "form") == "url" {
 			formURI = "https://login.example.test/device/enter"
 			conf.DeviceAuthorization.UserFormPath, conf.DeviceAuthorization.UserFormURL = "", formURI
